@@ -10,7 +10,9 @@ is parsed with the json module and compared with the abstract tree TLC emitted (
 value, marker objects, key sets), reloaded objects are compared with == (both directions) and field by
 field with the typed description TLC emitted for Dec(Enc(x)); file names are compared with the strings
 TLC rendered.  Python holds no oracle: it builds objects from descriptions, converts exact rationals to
-floats and compares."""
+floats and compares.
+Stage T: harness/props/c17_trace.py (seeded random values and update histories beyond the pools, recorded on
+the real code, validated by TLC against Enc / Dec / RState in one batched run)."""
 import json
 import os
 import pickle
@@ -49,8 +51,8 @@ HYP_EXPECT = {
     "FileNameRounds": ("fname", "FileNameInjective"),
 }
 WORKBASE = os.path.join(tlc.WORK, "c17-files")
-# ~30 short TLC processes run side by side: keep each JVM to a few service threads
-JVM_ENV = {"JAVA_TOOL_OPTIONS": "-XX:ParallelGCThreads=2 -XX:CICompilerCount=2 -XX:TieredStopAtLevel=1"}
+# ~30 short TLC processes: C1 compiler only (start-up dominates), few compiler threads
+JVM_ENV = {"JAVA_TOOL_OPTIONS": "-XX:CICompilerCount=2 -XX:TieredStopAtLevel=1"}
 NPTYPES = {"NpInt8": np.int8, "NpInt16": np.int16, "NpInt32": np.int32, "NpInt64": np.int64,
            "NpUInt8": np.uint8, "NpUInt16": np.uint16, "NpUInt32": np.uint32, "NpUInt64": np.uint64,
            "NpFloat16": np.float16, "NpFloat32": np.float32, "NpFloat64": np.float64}
@@ -401,6 +403,16 @@ def cmp_result_public(r, st, where, out):
         out.append(("num", f"{where}: num_updates {r.num_updates} != {st['num']}"))
     # statistics kept in a float32/float16 accumulator are divided in that width by the getters
     tol = {"NpFloat32": 1e-5, "NpFloat16": 5e-3}.get(st["rsum"]["t"], 1e-9)
+    if r.num_updates != st["num"]:
+        return  # the getters divide by num_updates
+    try:
+        _cmp_result_getters(r, st, where, out, tol)
+    except Exception as ex:  # a getter that breaks on a reloaded object is a mismatch, not a harness failure
+        out.append(("value", f"{where}: a result getter raised {type(ex).__name__}: {ex}"))
+    _cmp_result_lists(r, st, where, out)
+
+
+def _cmp_result_getters(r, st, where, out, tol):
     if st["num"] > 0 and st["type"] in (0, 1):
         if st["type"] == 0:
             exp = fval(st["value"]["n"], st["value"]["d"])
@@ -417,6 +429,9 @@ def cmp_result_public(r, st, where, out):
             out.append(("value", f"{where}: get_result_var() {r.get_result_var()!r} != {var!r}"))
     if st["type"] == 2 and st["num"] > 0:
         cmp_value(r.get_result(), st["value"], where + ".get_result()", out, False)
+
+
+def _cmp_result_lists(r, st, where, out):
     # accumulated values (private lists; skipped when renamed)
     vl = getattr(r, "_value_list", None)
     if vl is not None:
@@ -536,7 +551,7 @@ def run_results_case(c, wd):
     try:
         fn2 = o2.save_to_file(tmpl)
         if fn2 != fn:
-            out.append(("fname", f"saving the loaded object goes to {os.path.basename(fn2)!r} instead of {c['fname']!r}"))
+            out.append(("second:fname", f"saving the loaded object goes to {os.path.basename(fn2)!r} instead of {c['fname']!r}"))
         if c["json"]:
             tmp = []
             cmp_tree(json.load(open(fn2)), c["tree2"], "file2", tmp)
@@ -604,9 +619,11 @@ def exec_case(c):
     os.makedirs(wd)
     try:
         return RUNNERS[c["kind"]](c, wd)
-    except Exception as ex:  # the harness itself must not hide an unexpected exception
+    except OSError as ex:  # the scratch directory failing is a machinery failure
+        return [("harness", f"unexpected {type(ex).__name__}: {ex}")]
+    except Exception as ex:  # the library raising where no check expected it is a mismatch of this case
         import traceback
-        return [("harness", f"unexpected {type(ex).__name__}: {ex}\n{traceback.format_exc()[-600:]}")]
+        return [("raise", f"unexpected {type(ex).__name__}: {ex} | {traceback.format_exc()[-400:]}")]
     finally:
         shutil.rmtree(wd, ignore_errors=True)
 
@@ -667,29 +684,36 @@ def run(ctx):
     def emit_run(job):
         fam, p, n = job
         cfg, defs = model(fam, tier, p, n)
-        return tlc.run(MODULE, cfg, defs=defs, workers=1, timeout=1500, env=JVM_ENV, heap="1g")
+        return tlc.run(MODULE, cfg, defs=defs, workers=1, timeout=1500, env=JVM_ENV)
 
     def cov_run(fam):
         # per-action coverage on a thin slice (coverage instrumentation is 4x slower than plain emission)
         cfg, defs = model(fam, tier, 0, 40, emit=False)
-        return tlc.run(MODULE, cfg, defs=defs, coverage=True, timeout=900, env=JVM_ENV, heap="768m")
+        return tlc.run(MODULE, cfg, defs=defs, coverage=True, timeout=900, env=JVM_ENV)
 
     def dev_run(item):
         flag, (fam, law), is_dev = item
         cfg, defs = model(fam, tier if fam != "value" else "quick", dev=[flag] if is_dev else (),
                           hyp=() if is_dev else [flag], emit=False, laws=[law])
-        return flag, law, tlc.run(MODULE, cfg, defs=defs, timeout=900, env=JVM_ENV, heap="768m")
+        return flag, law, tlc.run(MODULE, cfg, defs=defs, timeout=900, env=JVM_ENV)
 
+    # stage T: record the real code on seeded random inputs now, let TLC validate them next to the other runs
+    from . import c17_trace
+    recorded = c17_trace.record(ctx)
+    nskip = sum(1 for e in recorded if e.get("kind") == "skip-npint")
+    events = [e for e in recorded if e.get("kind") != "skip-npint"]
     devitems = [(f, e, True) for f, e in DEV_EXPECT.items()] + [(f, e, False) for f, e in HYP_EXPECT.items()]
     try:
-        with ThreadPoolExecutor(12) as ex:
+        with ThreadPoolExecutor(int(os.environ.get("VERIF_PROCS", "0") or 0) or 12) as ex:  # the engine caps JVMs machine-wide
             efut = [ex.submit(emit_run, j) for j in jobs]
             dfut = [ex.submit(dev_run, it) for it in devitems]
             cfut = [ex.submit(cov_run, fam) for fam in FAMILIES]
+            tfut = ex.submit(c17_trace.validate, events)
             eruns = [f.result() for f in efut]
             for fam, f in zip(FAMILIES, cfut):
                 ctx.account(f.result(), MODULE, f"{fam} coverage slice")
             druns = [f.result() for f in dfut]
+            tres = tfut.result()
         cases = []
         seen = set()
         for job, r in zip(jobs, eruns):
@@ -719,6 +743,9 @@ def run(ctx):
             judge(ctx, c, mism)
             per[c["kind"]] = per.get(c["kind"], 0) + 1
         ctx.notes["cases_per_family"] = per
+        c17_trace.report(ctx, events, *tres)
+        for _ in range(nskip):
+            ctx.finding("ChoiceUpdateRaises", "recording a CHOICETYPE history: Result.update raised AttributeError (np.int)", None)
         for kind in FAMILIES:
             ex1 = next((c for c in cases if c["kind"] == kind), None)
             if ex1:
@@ -734,6 +761,10 @@ def replay(ctx, data):
     WORKBASE = os.path.join(tlc.WORK, f"c17-files-{os.getpid()}-{uuid.uuid4().hex[:6]}")
     os.makedirs(WORKBASE, exist_ok=True)
     try:
+        if "trace_event" in data["case"]:
+            from . import c17_trace
+            c17_trace.replay(ctx, data["case"])
+            return
         c = data["case"]["case"]
         judge(ctx, c, exec_case(c))
     finally:
